@@ -176,6 +176,25 @@ pub open spec fn branch_target(c: Code) -> Option<Seq<char>> {
     }
 }
 
+/// instructions that transfer control (their data effect under `run` is the fall-through one)
+pub open spec fn is_control(c: Code) -> bool {
+    match c {
+        Code::JMP(_) => true,
+        Code::JMPL(_) => true,
+        Code::JMPLN(_) => true,
+        Code::JEL(_) => true,
+        Code::JNEL(_) => true,
+        Code::JLL(_) => true,
+        Code::JLEL(_) => true,
+        Code::JGL(_) => true,
+        Code::JGEL(_) => true,
+        Code::CALL(_) => true,
+        Code::RET => true,
+        Code::LAB(_) => true,
+        _ => false,
+    }
+}
+
 pub open spec fn fits_i32(v: i64) -> bool { -0x8000_0000 <= v <= 0x7fff_ffff }
 
 pub open spec fn reg_ok(r: Register) -> bool { r.0 < 16 }
@@ -322,4 +341,17 @@ pub open spec fn appended_enc(old: Seq<Code>, new: Seq<Code>) -> bool {
 
 pub open spec fn all_enc(c: Seq<Code>) -> bool {
     forall|i: int| 0 <= i < c.len() ==> encodable(#[trigger] c[i])
+}
+
+/// extensional equality of machine states; `lemma_st_eq` turns it into `==`
+pub open spec fn st_eq(a: St, b: St) -> bool {
+    tot_eq(a.regs, b.regs) && tot_eq(a.mem, b.mem) && a.fl == b.fl && a.ok == b.ok && a.calls == b.calls
+}
+
+pub broadcast proof fn lemma_st_eq(a: St, b: St)
+    requires #[trigger] st_eq(a, b),
+    ensures a == b,
+{
+    lemma_tot_eq(a.regs, b.regs);
+    lemma_tot_eq(a.mem, b.mem);
 }
